@@ -211,6 +211,10 @@ def step_gate_key(session: Any, sid: int, uni: Universe) -> Any:
 # SYNC observation
 # ------------------------------------------------------------------------------------------------------------
 
+MP_HANG_RETRIES = [0]
+_KEEP_PIDS: Set[int] = set()          # processes of the harness itself (shared Flight server)
+
+
 def run_observed(session: Any, modes: Optional[Set[Any]] = None, stream: bool = False, timeout: float = 30.0,
                  ren: Optional[Dict[Any, int]] = None, **kw: Any) -> Dict[str, Any]:
     """Run a prepared session under a watchdog; returns begin order (sids), scans, outcome.
@@ -218,6 +222,7 @@ def run_observed(session: Any, modes: Optional[Set[Any]] = None, stream: bool = 
     objects that actually ran (req / tfs / left / right, in the plan's numbering; right_uuid)."""
     from mloda.user import ParallelizationMode
     install()
+    no_retry = bool(kw.pop("_no_retry", False))
     u2s = uuid_to_sid(session)
     REC.reset()
     out: Dict[str, Any] = {}
@@ -238,6 +243,20 @@ def run_observed(session: Any, modes: Optional[Set[Any]] = None, stream: bool = 
     th.join(timeout)
     if th.is_alive():
         out["status"] = "hang"
+        from mloda.user import ParallelizationMode as _PM
+        if modes and _PM.MULTIPROCESSING in modes and not no_retry:
+            # a MULTIPROCESSING run that does not end within the watchdog is re-observed ONCE after killing what it left behind
+            # (about 1 in 1 500 MULTIPROCESSING runs stalls on a loaded machine and never on replay; cause not identified:
+            # DESIGN.md section 8).  Two stalls in a row are reported.  The number of retries goes into the evidence.
+            MP_HANG_RETRIES[0] += 1
+            import multiprocessing as _mp
+            for p in _mp.active_children():
+                if p.pid not in _KEEP_PIDS:
+                    try:
+                        p.kill()
+                    except Exception:  # noqa: BLE001
+                        pass
+            return run_observed(session, modes=modes, stream=stream, timeout=timeout, ren=ren, _no_retry=True, **kw)
     out["wall"] = time.time() - t0
     out["begin_order"] = [u2s.get(u, -1) for k, u in REC.events if k == "begin"]
     out["end_order"] = [u2s.get(u, -1) for k, u in REC.events if k == "end"]
@@ -419,8 +438,11 @@ def flight_server() -> Any:
     import atexit
     from mloda.core.runtime.flight.runner_flight_server import ParallelRunnerFlightServer
     if not _FLIGHT:
+        import multiprocessing as _mp
+        before = {p.pid for p in _mp.active_children()}
         fs = ParallelRunnerFlightServer()
         fs.start_flight_server_process()
+        _KEEP_PIDS.update({p.pid for p in _mp.active_children()} - before)
         _FLIGHT.append(fs)
         atexit.register(stop_flight_server)
         time.sleep(0.3)
